@@ -61,6 +61,12 @@ REVIEWED_COUNT = {
 }
 
 
+REVIEWED_FN, REVIEWED_FN_COUNT = {}, {}
+for (_f, _m), _r in REVIEWED.items():
+    REVIEWED_FN[_f] = (REVIEWED_FN[_f] + '; ' + _r) if _f in REVIEWED_FN and _r not in REVIEWED_FN[_f] else REVIEWED_FN.get(_f, _r)
+    REVIEWED_FN_COUNT[_f] = REVIEWED_FN_COUNT.get(_f, 0) + REVIEWED_COUNT.get((_f, _m), 1)
+
+
 def _is_random(ty):
     t = ty.lstrip('&').replace('mut ', '')
     if 'FxBuildHasher' in t or 'FxHasher' in t or 'BuildHasherDefault<rustc_hash' in t:
@@ -98,6 +104,9 @@ def _consumers(b, t):
     return terminals
 
 
+from .compiler_common import family_items
+
+
 def r1_hash_order(ctx):
     ctx.rule('C10.R1', 'P3+P4+P7 hash-order audit: every call of an order-exposing method (iter, into_iter, keys, values, drain, left/right_values, '
              'for-loops) on a randomly seeded HashMap/HashSet/BiHashMap in pavexc bodies reachable from App::build, App::codegen, '
@@ -132,8 +141,16 @@ def r1_hash_order(ctx):
                 ctx.ob('C10.R1', 'site|%s|%s|%s' % (fn, m, recv), True, b.loc(bb, t),
                        'iteration over %s consumed only by order-insensitive sinks %s' % (recv, sorted({k if k != 'collect' else 'collect<' + w.split('<')[0].split('::')[-1] + '>' for k, w in terms})))
             else:
-                key = (fn, m)
-                reason = REVIEWED.get(key)
+                # the review is of what the function does with the visit order, whichever order-exposing method it spells and whichever private
+                # helper of it the loop now lives in
+                key = fn
+                if key not in REVIEWED_FN:
+                    for r in REVIEWED_FN:
+                        full = [x.nroot for x in ctx.fb.bodies('pavexc') if not x.is_promoted and x.nroot.replace(PX, '').replace('analyses::', '') == r][:1]
+                        if full and b.nroot in family_items(ctx, 'pavexc', full):
+                            key = r
+                            break
+                reason = REVIEWED_FN.get(key)
                 if reason is not None:
                     reviewed_seen[key] = reviewed_seen.get(key, 0) + 1
                 ctx.ob('C10.R1', 'site|%s|%s|%s' % (fn, m, recv), reason is not None, b.loc(bb, t),
@@ -141,8 +158,8 @@ def r1_hash_order(ctx):
                            recv, sorted(set(sens))[:5] or '(escapes the function)', ('reviewed — ' + reason) if reason else
                            'NOT REVIEWED: the order of a random-seeded hash container can reach the generated output'))
     for key, cnt in sorted(reviewed_seen.items()):
-        lim = REVIEWED_COUNT.get(key, 1)
-        ctx.ob('C10.R1', 'reviewed-count|%s|%s' % key, cnt <= lim, '', '%d order-sensitive site(s) for %s::%s, %d reviewed' % (cnt, key[0], key[1], lim),
+        lim = REVIEWED_FN_COUNT.get(key, 1)
+        ctx.ob('C10.R1', 'reviewed-count|%s' % key, cnt <= lim, '', '%d order-sensitive site(s) in %s (and its private helpers), %d reviewed' % (cnt, key, lim),
                nontrivial=False)
     ctx.count('hash_iteration_sites', n)
     ctx.count('auto_discharged', auto)
